@@ -44,7 +44,7 @@ ASSUMPTIONS = [
     're-executing sampled sequences from scratch)',
 ]
 ANCHORS = ['Table.filter', 'Table.update_ids', 'Table._index_ids', 'errcheck', 'Table.merge', 'Table.concat', 'Table.collapse', 'Table.partition', 'Table.subsample', 'Table.transform']
-REQUIRED = ['shared_text_id_probes', 'histories_under_other_error_profile', 'pairwise_variants_checked', 'tables_built_from_one_matrix_object',
+REQUIRED = ['iterations_continued_after_a_step', 'shared_text_id_probes', 'histories_under_other_error_profile', 'pairwise_variants_checked', 'tables_built_from_one_matrix_object',
             'tables_built_over_matrix_data', 'steps', 'earlier_tables_rechecked', 'refused_then_checked', 'oracle_runs', 'invariant_evaluations',
             'absent_id_probes', 'stale_id_probes', 'layout_csc_seen',
             'layout_unsorted_seen', 'empty_table_states', 'io_steps',
@@ -982,12 +982,40 @@ def _random_history(ctx, r, t, m, ever, hist, L, alive, permanent, shared,
                 pass
         prev = t
         prev_snap = snap.snap(t)
+        # an iteration that is under way when the step happens: what it
+        # still yields afterwards is the table as it is then (provided the
+        # step left the iterated axis as it was)
+        under_way = None
+        if r.random() < .15 and min(t.shape) > 0 and \
+                max(t.shape) >= 2:
+            ax_it = r.choice(['sample', 'observation'])
+            if t.length(ax_it) >= 2:
+                it = t.iter(dense=True, axis=ax_it)
+                next(it)
+                under_way = (ax_it, it,
+                             [str(i) for i in t.ids(axis=ax_it)])
         try:
             t, m = apply_step(ctx, name, t, m, r, ever, hist)
         except Ended:
             break
         except Refused:
             continue
+        if under_way is not None and t is prev and \
+                [str(i) for i in t.ids(axis=under_way[0])] == under_way[2]:
+            ax_it, it, ids_it = under_way
+            Dn = snap.snap(t).D
+            rest = list(it)
+            for k, (v, i, md_) in enumerate(rest, 1):
+                ref = Dn[k, :] if ax_it == 'observation' else Dn[:, k]
+                if str(i) != ids_it[k] or not snap.bits_equal(
+                        np.asarray(v).reshape(-1), ref):
+                    raise Violation('C05/incoherent/iteration-under-way',
+                                    'an iteration over %s started before '
+                                    '%s yields %r for %r afterwards, the '
+                                    'table holds %r; case=%r' %
+                                    (ax_it, name, np.asarray(v).tolist(), i,
+                                     ref.tolist(), dict(hist)))
+            ctx.count('iterations_continued_after_a_step')
         hist['ops'].append(name)
         if t is not prev:
             alive.append((prev_snap, prev, len(hist['ops'])))
